@@ -622,7 +622,17 @@ func runC33(c *core.Ctx) {
 				rootP = add.Param(i)
 			}
 		}
-		c.Need(frameP != nil && rootP != nil, "addRoot(root dag.Event, frame idx.Frame)")
+		// the record may be built in addRoot from (root, frame) or be handed to it ready-made by its callers
+		var recP *types.Var
+		for i := 0; add.Param(i) != nil; i++ {
+			if nt, ok := add.Param(i).Type().(*types.Named); ok && p.ObjName(nt.Obj()) == "abft/election.RootAndSlot" && len(assignsToVar(add, add.Param(i))) == 0 {
+				recP = add.Param(i)
+			}
+		}
+		if recP != nil {
+			frameP, rootP = nil, nil
+		}
+		c.Need(recP != nil || (frameP != nil && rootP != nil), "addRoot(root dag.Event, frame idx.Frame) or addRoot(record)")
 		var puts []*core.CallSite
 		for _, cs := range add.CallsTo(kvPut) {
 			if cs.Recv() != nil && fieldNameOf(add, cs.Recv()) == c33Roots {
@@ -638,54 +648,128 @@ func runC33(c *core.Ctx) {
 			arg = ast.Unparen(u.X)
 		}
 		recVar := varOf(add, arg)
-		def := c33singleDef(add, recVar)
-		c.Need(def != nil && def.RHS != nil, "the record is a local variable defined once")
-		cl, _ := ast.Unparen(def.RHS).(*ast.CompositeLit)
-		c.Need(cl != nil, "the record is built by a composite literal")
-		vals := map[string]ast.Expr{}
-		c33litFields(add, cl, vals)
-		isRootCall := func(e ast.Expr, method string) bool {
-			call := isCallTo(add, e, "inter/dag.Event."+method)
-			if call == nil {
-				return false
+		// isFrame: does e denote the frame the root is registered under — the frame parameter, or (record
+		// handed in) the Slot.Frame of the unmodified record, possibly held in a local defined once?
+		var isFrame func(e ast.Expr) bool
+		if recP == nil {
+			def := c33singleDef(add, recVar)
+			c.Need(def != nil && def.RHS != nil, "the record is a local variable defined once")
+			cl, _ := ast.Unparen(def.RHS).(*ast.CompositeLit)
+			c.Need(cl != nil, "the record is built by a composite literal")
+			vals := map[string]ast.Expr{}
+			c33litFields(add, cl, vals)
+			isRootCall := func(e ast.Expr, method string) bool {
+				call := isCallTo(add, e, "inter/dag.Event."+method)
+				if call == nil {
+					return false
+				}
+				sel, ok := ast.Unparen(call.Fun).(*ast.SelectorExpr)
+				return ok && varOf(add, sel.X) == rootP
 			}
-			sel, ok := ast.Unparen(call.Fun).(*ast.SelectorExpr)
-			return ok && varOf(add, sel.X) == rootP
+			c.Check(vals[c33FFrame] != nil && varOf(add, vals[c33FFrame]) == frameP && len(assignsToVar(add, frameP)) == 0, "addRoot|record frame = frame parameter", "provenance", cl.Pos(), "Slot.Frame is the frame the root is registered under", "the stored record's frame is not the frame parameter: the root is returned for a different frame")
+			c.Check(vals[c33FValid] != nil && isRootCall(vals[c33FValid], "Creator"), "addRoot|record validator = root.Creator()", "provenance", cl.Pos(), "Slot.Validator is the creator of the registered event", "the stored record's validator is not root.Creator()")
+			c.Check(vals[c33FID] != nil && isRootCall(vals[c33FID], "ID"), "addRoot|record ID = root.ID()", "provenance", cl.Pos(), "ID is the registered event's ID", "the stored record's ID is not root.ID()")
+			isFrame = func(e ast.Expr) bool { return e != nil && varOf(add, e) == frameP }
+		} else {
+			c.Need(recVar == recP, "the stored record is the record parameter")
+			// nothing in addRoot changes the record it was handed
+			for _, a := range assignments(add) {
+				root, depth := ast.Unparen(a.LHS), 0
+				for {
+					switch y := root.(type) {
+					case *ast.SelectorExpr:
+						root, depth = ast.Unparen(y.X), depth+1
+						continue
+					case *ast.IndexExpr:
+						root, depth = ast.Unparen(y.X), depth+1
+						continue
+					}
+					break
+				}
+				c.Need(!(depth > 0 && varOf(add, root) == recP), "addRoot does not modify the record it is handed")
+			}
+			isFrame = func(e ast.Expr) bool {
+				if e == nil {
+					return false
+				}
+				root, path := fieldPath(add, e)
+				return len(path) >= 1 && path[len(path)-1] == c33FFrame && varOf(add, root) == recP
+			}
+			// every caller builds the record from the registered event: creator and ID of one and the same
+			// event, and a frame (the frame the root is thereby registered under)
+			nCallers := 0
+			for _, cf := range c33abftFuncs(p) {
+				for _, cs := range cf.CallsTo(add.Name) {
+					nCallers++
+					pi := c24paramIndex(add, recP)
+					var cl *ast.CompositeLit
+					if pi >= 0 && pi < len(cs.Call.Args) {
+						e := ast.Unparen(cs.Call.Args[pi])
+						if lv := varOf(cf, e); lv != nil {
+							if d := c33singleDef(cf, lv); d != nil && d.RHS != nil {
+								e = ast.Unparen(d.RHS)
+							}
+						}
+						cl, _ = e.(*ast.CompositeLit)
+					}
+					if cl == nil {
+						c.Undecided(short(cf.Name)+"|record handed to addRoot", "provenance", cs.Pos(), "the record passed to addRoot is not a composite literal built at the call")
+						continue
+					}
+					vals := map[string]ast.Expr{}
+					c33litFields(cf, cl, vals)
+					evOf := func(e ast.Expr, method string) *types.Var {
+						call := isCallTo(cf, e, "inter/dag.Event."+method)
+						if call == nil {
+							return nil
+						}
+						sel, ok := ast.Unparen(call.Fun).(*ast.SelectorExpr)
+						if !ok {
+							return nil
+						}
+						return varOf(cf, sel.X)
+					}
+					ev := evOf(vals[c33FValid], "Creator")
+					c.Check(vals[c33FFrame] != nil, "addRoot|record frame = frame parameter", "provenance", cl.Pos(), "the caller sets Slot.Frame: the frame the root is registered (stored and cached) under", "the record handed to addRoot has no frame: every root is registered under frame 0")
+					c.Check(ev != nil, "addRoot|record validator = root.Creator()", "provenance", cl.Pos(), "Slot.Validator is the creator of the registered event", "the stored record's validator is not root.Creator()")
+					c.Check(ev != nil && evOf(vals[c33FID], "ID") == ev, "addRoot|record ID = root.ID()", "provenance", cl.Pos(), "ID is the registered event's ID", "the stored record's ID is not the ID() of the event whose creator it carries")
+				}
+			}
+			c.ExpectAtLeast("callers handing a record to addRoot", nCallers, 1)
 		}
-		c.Check(vals[c33FFrame] != nil && varOf(add, vals[c33FFrame]) == frameP && len(assignsToVar(add, frameP)) == 0, "addRoot|record frame = frame parameter", "provenance", cl.Pos(), "Slot.Frame is the frame the root is registered under", "the stored record's frame is not the frame parameter: the root is returned for a different frame")
-		c.Check(vals[c33FValid] != nil && isRootCall(vals[c33FValid], "Creator"), "addRoot|record validator = root.Creator()", "provenance", cl.Pos(), "Slot.Validator is the creator of the registered event", "the stored record's validator is not root.Creator()")
-		c.Check(vals[c33FID] != nil && isRootCall(vals[c33FID], "ID"), "addRoot|record ID = root.ID()", "provenance", cl.Pos(), "ID is the registered event's ID", "the stored record's ID is not root.ID()")
 
-		// cache maintenance
-		gets := c33cacheCalls(add, "Get")
-		adds := c33cacheCalls(add, "Add")
-		rems := c33cacheCalls(add, "Remove")
+		// cache maintenance (in place or through accessor methods of the store: inlined view)
+		gets := c33cacheOps(add, "Get")
+		adds := c33cacheOps(add, "Add")
+		rems := c33cacheOps(add, "Remove")
 		var okVar, cVar *types.Var
-		for _, gcs := range gets {
-			if len(gcs.Call.Args) == 1 && varOf(add, gcs.Call.Args[0]) == frameP {
-				cVar, okVar = c33commaOK(add, gcs.Call)
+		var getOp c33op
+		for _, gop := range gets {
+			if isFrame(gop.Key) {
+				cVar, okVar = gop.ValVar, gop.OkVar
+				getOp = gop
 			}
 		}
 		for _, r := range rems {
-			c.Check(len(r.Call.Args) == 1 && varOf(add, r.Call.Args[0]) == frameP, "addRoot|cache Remove uses the registered frame", "T7 Pairing", r.Pos(), "the invalidated entry is the registered frame's", "a different frame's cache entry is removed: the registered frame's cached list stays stale")
+			c.Check(isFrame(r.Key), "addRoot|cache Remove uses the registered frame", "T7 Pairing", r.Site.Pos(), "the invalidated entry is the registered frame's", "a different frame's cache entry is removed: the registered frame's cached list stays stale")
 		}
 		for _, a := range adds {
-			c.Need(len(a.Call.Args) == 3, "Cache.Add(key, value, weight)")
-			c.Check(varOf(add, a.Call.Args[0]) == frameP, "addRoot|cache Add uses the registered frame", "T7 Pairing", a.Pos(), "the updated entry is the registered frame's", "the extended list is cached under a different frame")
+			c.Need(a.Key != nil && a.Val != nil, "Cache.Add(key, value, weight)")
+			c.Check(isFrame(a.Key), "addRoot|cache Add uses the registered frame", "T7 Pairing", a.Site.Pos(), "the updated entry is the registered frame's", "the extended list is cached under a different frame")
 			g, wit := false, []core.Point(nil)
 			if okVar != nil {
-				g, wit = add.GuardedBy(a.Pt, c33boolFact(add, okVar, true))
+				g, wit = add.GuardedBy(a.Site.Pt, c33boolFact(add, okVar, true))
 			}
-			c.Check(g, "addRoot|cache Add only when the frame is cached", "T4 GuardedBy", a.Pos(), "Add is reached only on the Get-ok edge: an uncached frame stays uncached and is read from the database",
+			c.Check(g, "addRoot|cache Add only when the frame is cached", "T4 GuardedBy", a.Site.Pos(), "Add is reached only on the Get-ok edge: an uncached frame stays uncached and is read from the database",
 				"the cache can be filled for a frame that is not cached: the entry holds only the new root, earlier roots of the frame are lost to readers; path "+add.DescribePath(wit))
 			// the value: cached list + exactly this record
-			why := c33cachedPlus(add, a, cVar, recVar)
-			c.Check(why == "", "addRoot|cached list extended by the stored record", "T7 Pairing", a.Pos(), "value = append(<cached list of the frame>, <the record just stored>)", "the list written to the cache is not the cached list plus the stored record: "+why)
+			why := c33cachedPlus(add, a, getOp, cVar, recVar)
+			c.Check(why == "", "addRoot|cached list extended by the stored record", "T7 Pairing", a.Site.Pos(), "value = append(<cached list of the frame>, <the record just stored>)", "the list written to the cache is not the cached list plus the stored record: "+why)
 		}
 		// every path from the Put on which the frame is cached updates or invalidates the entry
 		var upd []core.Point
-		upd = append(upd, core.Points(adds)...)
-		upd = append(upd, core.Points(rems)...)
+		upd = append(upd, c33opPoints(adds)...)
+		upd = append(upd, c33opPoints(rems)...)
 		c.Need(okVar != nil || len(rems) > 0, "addRoot consults the cache (Get(frame) with comma-ok) or invalidates the frame")
 		var missEdge func(b *cfg.Block, s int) bool
 		if okVar != nil {
@@ -708,18 +792,21 @@ func runC33(c *core.Ctx) {
 		c.Need(fp != nil, "frame parameter")
 		// hit path
 		var hitVal, hitOK *types.Var
-		for _, gcs := range c33cacheCalls(g, "Get") {
-			if len(gcs.Call.Args) == 1 && varOf(g, gcs.Call.Args[0]) == fp {
-				hitVal, hitOK = c33commaOK(g, gcs.Call)
+		// (cache operations in place or through accessor methods of the store: inlined view)
+		for _, gop := range c33cacheOps(g, "Get") {
+			if gop.Key != nil && varOf(g, gop.Key) == fp {
+				hitVal, hitOK = gop.ValVar, gop.OkVar
 			}
 		}
-		adds := c33cacheCalls(g, "Add")
-		c.ExpectAtLeast("cache fills in GetFrameRoots", len(adds), 1)
+		addOps := c33cacheOps(g, "Add")
+		c.ExpectAtLeast("cache fills in GetFrameRoots", len(addOps), 1)
 		var listVar *types.Var
-		for _, a := range adds {
-			c.Need(len(a.Call.Args) == 3, "Cache.Add(key, value, weight)")
-			c.Check(varOf(g, a.Call.Args[0]) == fp && len(assignsToVar(g, fp)) == 0, "GetFrameRoots|cache filled under the queried frame", "T7 Pairing", a.Pos(), "Add(f, ·) with f the queried frame", "the scan result is cached under a different frame")
-			v := varOf(g, a.Call.Args[1])
+		var adds []*core.CallSite
+		for _, a := range addOps {
+			c.Need(a.Key != nil && a.Val != nil, "Cache.Add(key, value, weight)")
+			adds = append(adds, a.Site)
+			c.Check(varOf(g, a.Key) == fp && len(assignsToVar(g, fp)) == 0, "GetFrameRoots|cache filled under the queried frame", "T7 Pairing", a.Site.Pos(), "Add(f, ·) with f the queried frame", "the scan result is cached under a different frame")
+			v := varOf(g, a.Val)
 			c.Need(v != nil && (listVar == nil || listVar == v), "the cached value is one list variable")
 			listVar = v
 		}
@@ -947,7 +1034,32 @@ func runC33(c *core.Ctx) {
 					} else if lhs[sel] {
 						use = "="
 					}
-					c.Check(allowed[f.Name][use], short(f.Name)+"|FrameRoots "+use, "T6 WhoMayWrite", sel.Pos(), "allowed use of the roots cache", short(f.Name)+" uses cache.FrameRoots ("+use+"); only initCache (=), openEpochDB (Purge), addRoot (Get/Add/Remove) and GetFrameRoots (Get/Add) may: any other writer can leave a list that is not the frame's complete root set")
+					okUse := allowed[f.Name][use]
+					if !okUse && f.Parent == nil {
+						// an accessor of the cache (one Get/Add/Remove on its own parameters, nothing else) is the
+						// operation of its callers: allowed when every caller may perform that operation itself
+						// (the callers' use is then judged through the accessor by C33.register / C33.query)
+						if acc, isAcc := c33accessor(f); isAcc && acc.op == use {
+							nCallers := 0
+							okUse = true
+							for _, cf := range c33abftFuncs(p) {
+								for _, cs := range cf.Calls() {
+									if fn, isF := cs.Callee.(*types.Func); isF && p.FuncOf(fn) == f {
+										nCallers++
+										top := cf
+										for top.Parent != nil {
+											top = top.Parent
+										}
+										if cf.Parent != nil || !allowed[top.Name][use] {
+											okUse = false
+										}
+									}
+								}
+							}
+							okUse = okUse && nCallers > 0
+						}
+					}
+					c.Check(okUse, short(f.Name)+"|FrameRoots "+use, "T6 WhoMayWrite", sel.Pos(), "allowed use of the roots cache", short(f.Name)+" uses cache.FrameRoots ("+use+"); only initCache (=), openEpochDB (Purge), addRoot (Get/Add/Remove) and GetFrameRoots (Get/Add) may: any other writer can leave a list that is not the frame's complete root set")
 				case c33CacheSt:
 					if !inner[sel] {
 						// the whole cache struct is handed out (reflection): harmless when every cache field is
@@ -970,15 +1082,23 @@ func runC33(c *core.Ctx) {
 func c33isValueSpec(n ast.Node) bool { _, ok := n.(*ast.ValueSpec); return ok }
 
 // c33cachedPlus: is the value argument of the cache Add "the cached list (type-asserted Get result) plus exactly rec"?
-func c33cachedPlus(f *core.FuncInfo, add *core.CallSite, cVar, rec *types.Var) string {
-	if cVar == nil || rec == nil {
+func c33cachedPlus(f *core.FuncInfo, addOp, getOp c33op, cVar, rec *types.Var) string {
+	if cVar == nil || rec == nil || addOp.Val == nil {
 		return "no Get(frame) result / stored record to relate the value to"
 	}
+	add := struct{ Pt core.Point }{addOp.Site.Pt}
+	// (a Get accessor hands back the list already type-asserted: the variable itself is the cached list)
 	isCached := func(e ast.Expr) bool {
+		if getOp.Typed {
+			return varOf(f, e) == cVar
+		}
 		ta, ok := ast.Unparen(e).(*ast.TypeAssertExpr)
 		return ok && varOf(f, ta.X) == cVar
 	}
-	val := ast.Unparen(add.Call.Args[1])
+	isGetDef := func(v *types.Var, d assignment) bool {
+		return getOp.Typed && v == cVar && d.RHS != nil && getOp.Site != nil && ast.Unparen(d.RHS) == ast.Expr(getOp.Site.Call)
+	}
+	val := ast.Unparen(addOp.Val)
 	isPlus := func(e ast.Expr, self *types.Var) bool {
 		ap := isCallTo(f, e, "builtin.append")
 		if ap == nil || len(ap.Args) != 2 || ap.Ellipsis.IsValid() || varOf(f, ap.Args[1]) != rec {
@@ -996,7 +1116,7 @@ func c33cachedPlus(f *core.FuncInfo, add *core.CallSite, cVar, rec *types.Var) s
 	var base, plus []core.Point
 	for _, d := range assignsToVar(f, v) {
 		switch {
-		case d.RHS != nil && isCached(d.RHS):
+		case d.RHS != nil && (isGetDef(v, d) || (isCached(d.RHS) && !(getOp.Typed && v == cVar))):
 			base = append(base, d.Pt)
 		case d.RHS != nil && isPlus(d.RHS, v):
 			plus = append(plus, d.Pt)
